@@ -36,19 +36,32 @@ def discharge(ob):
         rec["status"] = "vacuous" if r == z3.unsat else "discharged"
         rec["note"] = "cover: path condition " + ("UNSATISFIABLE" if r == z3.unsat else str(r))
         return rec
-    # pass 1: E-matching only
+    # pass 1: E-matching only (decides every obligation of the unchanged tree in milliseconds)
     s = _solver(ob.hyps, ob.goal, False, Z3_MS)
     r = s.check()
     backend = "z3(e-matching)"
+    model_solver = s
+    if r == z3.unknown and ob.size_terms:
+        # pass 2: look for a *small* counter-model (lengths <= 2, 3; integers in [-6, 6]).  Adding
+        # constraints can only lose models, so a model found here is a genuine refutation.
+        for bound in (2, 3):
+            sb = _solver(ob.hyps, ob.goal, True, 6000)
+            for t in ob.size_terms:
+                is_len = str(t).endswith("_n") or "_n!" in str(t)
+                sb.add(t <= (bound if is_len else 6), t >= -6)
+            if sb.check() == z3.sat:
+                r, backend, model_solver = z3.sat, "z3(mbqi,bounded-model)", sb
+                break
     if r == z3.unknown:
-        # pass 2: with model-based quantifier instantiation (can also produce models)
-        s = _solver(ob.hyps, ob.goal, True, Z3_MS)
+        # pass 3: model-based quantifier instantiation, unbounded
+        s = _solver(ob.hyps, ob.goal, True, Z3_MS // 2)
         r = s.check()
         backend = "z3(mbqi)"
+        model_solver = s
     if r == z3.unsat:
         rec.update(status="discharged", backend=backend)
     elif r == z3.sat:
-        rec.update(status="refuted", backend=backend, model=_model(s.model(), ob.model_vars))
+        rec.update(status="refuted", backend=backend, model=_model(model_solver.model(), ob.model_vars))
     else:
         r2 = _cvc5(s)
         if r2 == "unsat":
